@@ -185,6 +185,11 @@ pub const ADVERSARIAL: &[&str] = &[
     "\r",
     "\u{1}ctl",
     "\u{8}\u{c}",
+    // Control characters whose numeric escapes contain the hexadecimal digits a-f.
+    "\u{b}vt",
+    "\u{e}\u{f}",
+    "\u{1a}\u{1b}[0m",
+    "x\u{1c}\u{1d}\u{1e}\u{1f}",
     "\u{7f}del",
     "\u{1F600}smile",
     "\u{1D4B3}",
